@@ -1,3 +1,7 @@
 #!/bin/sh
-# usage: checks/c08/sigs.sh <run-output>   — distinct violation signatures with leaf counts
-grep -o 'sig=[^ ]*' "$1" | sort | uniq -c | sort -k2
+# usage: checks/c08/sigs.sh <run-output> [-m]  — distinct violation signatures (with -m: one example message each)
+if [ "$2" = "-m" ]; then
+  grep '^  sig=' "$1" | sort -u -t' ' -k3,3 | cut -c1-${COLS:-420}
+else
+  grep -o 'sig=[^ ]*' "$1" | sort | uniq -c | sort -k2
+fi
